@@ -37,7 +37,7 @@ LAYOUTS = {
     "clock": ([], ["O", "D"]),  # TIME holds NM-TRAN clock strings (datatype nmtran-time)
     "mdv": (["MDV"], ["O", "D", "X"]),
     "evid": (["EVID"], ["O", "D", "E2", "E3", "E4"]),
-    "evidmdv": (["EVID", "MDV"], ["O", "D", "E2", "E3", "E4"]),
+    "evidmdv": (["EVID", "MDV"], ["O", "D", "OM", "E2", "E3", "E4"]),  # OM: EVID=0 with MDV=1 (missing DV)
     "cmt": (["CMT"], ["O", "D1", "D2"]),
     "evidcmt": (["EVID", "CMT"], ["O", "D1", "D2", "E41", "E42"]),
     "admid": (["EVID", "ADMID"], ["O", "D1", "D2"]),
@@ -126,6 +126,8 @@ def materialise(layout, ids, individuals):
                     rate = 50.0
             elif kind in ("E2", "X"):
                 evid = 2
+            elif kind == "OM":
+                evid = 0
             elif kind == "E3":
                 evid = 3
             else:
@@ -257,10 +259,9 @@ def walk_doseid(events):
     Rule: a dose record opens period d (1, 2, ...); every other record belongs to the period of the
     most recent dose recorded before it (0 = before the first dose), except an observation recorded
     after a dose at the same time, which belongs to the preceding period - unless that dose is the
-    first one (then the observation stays in period 1).  Where the documentation is silent both
-    values are accepted: non-observation records at the time of a dose, several doses at one time,
-    steady-state doses (the code keeps the period, the docstring says preceding), ties across a
-    reset."""
+    first one or a steady-state dose (then the observation stays in the period of that dose).
+    Where the documentation is silent both values are accepted: non-observation records at the
+    time of a dose, several doses at one time, ties across a reset."""
     d = 0
     rg = 0
     doses = []  # (time, rg, evid, ss)
@@ -286,7 +287,7 @@ def walk_doseid(events):
         if not strict:
             accept.append(set(range(max(0, d - len(tied)), d + 1)))
         elif last[3] > 0:
-            accept.append({d, d - 1})
+            accept.append({d})  # steady-state dose: the period is kept (comment in get_doseid)
         elif d == 1:
             accept.append({1})
         else:
